@@ -2,6 +2,7 @@
 import re
 
 from . import common, kani, unit_lattice
+from .unit_index import scan_assumptions
 from .report import Outcome
 
 TRUSTED = [
@@ -32,12 +33,15 @@ def run(pid, tier):
         out.coverage = {'explanation': 'unit did not run', 'obligations': 0, 'discharged': 0, 'checker_cmd': 'verus', 'trusted_base': TRUSTED}
         return out.finish()
     v, k, n = unit['verus'], unit['kani'], unit['native']
+    sv = unit['verus_set']
     c03 = pid == 'C03'
 
     # ---- Verus
     if v['inconclusive']:
         out.inconclusive.append('verus: ' + v['inconclusive'])
-    vfails = [f for f in v['failures'] if (not c03 or c03_relevant_verus(f))]
+    if sv['inconclusive']:
+        out.inconclusive.append('verus (set unit): ' + sv['inconclusive'])
+    vfails = [f for f in v['failures'] + sv['failures'] if (not c03 or c03_relevant_verus(f))]
     for f in vfails:
         cex = unit_lattice.find_cex_for_verus_failure(f, unit)
         if cex:
@@ -92,7 +96,7 @@ def run(pid, tier):
 
     # ---- evidence
     log = v['log']
-    vfuncs = [f for f in v['functions'] if f[0] and '__vacuity_canary' not in f[0]]
+    vfuncs = [f for f in v['functions'] + sv['functions'] if f[0] and '__vacuity_canary' not in f[0]]
     v_ok = sum(1 for f in vfuncs if f[2])
     kres = k['results']
     k_sel = [h for h in k['harnesses'] if (not c03 or c03_relevant_harness(h))]
@@ -113,9 +117,10 @@ def run(pid, tier):
         'explanation': 'obligation = one Verus function (all its ensures/requires/termination queries) or one Kani harness (all its named law assertions) '
                        'or one exhaustive finite-carrier check; bounded stand-ins are listed separately and not counted',
         'backends': {
-            'verus': {'functions_verified': v_ok, 'functions_total': len(vfuncs), 'real_functions_spliced': len(log.real_fns),
-                      'solver_wall_s': round(v['verus_s'], 2), 'expand_s': round(v['expand_s'], 2),
-                      'vacuity_canary_failed_as_required': v['canary_ok'],
+            'verus': {'functions_verified': v_ok, 'functions_total': len(vfuncs), 'real_functions_spliced': len(log.real_fns) + len(sv['log'].real_fns),
+                      'units': [v['path'], sv['path']],
+                      'solver_wall_s': round(v['verus_s'] + sv['verus_s'], 2), 'expand_s': round(v['expand_s'], 2),
+                      'vacuity_canary_failed_as_required': v['canary_ok'] and sv['canary_ok'],
                       'slowest_functions_us': [[f[0], f[3]] for f in slow]},
             'kani': {'harnesses_successful': k_ok, 'harnesses_total': len(k_sel), 'cbmc_checks': k_checks, 'wall_s': round(k['wall_s'], 2),
                      'solver_s_sum': round(sum((kres.get(h, {}).get('time') or 0) for h in k_sel), 2)},
@@ -123,9 +128,10 @@ def run(pid, tier):
         },
         'bounded_standins_not_counted_as_proved': {h: {'evaluated': r['evaluated'], 'domain': r['domain'], 'failures': len(r['failures'])}
                                                    for h, r in bounded.items()},
-        'functions_under_contract': sorted(set('%s::%s %s :: %s' % (f['crate'], f['mod'], f['container'], f['fn']) for f in log.real_fns)),
+        'functions_under_contract': sorted(set('%s::%s %s :: %s' % (f['crate'], f['mod'], f['container'], f['fn']) for f in log.real_fns + sv['log'].real_fns)),
+        'set_unit_assumption_scan': scan_assumptions(open(sv['path']).read()),
         'functions_assumed_in_verus_proved_by_kani': log.external,
-        'rewrites_applied': summarize_rewrites(log.rewrites),
+        'rewrites_applied': summarize_rewrites(log.rewrites + sv['log'].rewrites),
         'samples': [
             {'verus_obligation': 'impl<T:Lattice>Lattice for Option<T> :: join_mut :: ensures Self::lat_wf() ==> changed == (*final(self) != *old(self))'},
             {'kani_harness': 'lift_rc_p2', 'asserts': ['lift_join_mut_value_is_inner_join_mut', 'lift_join_mut_flag_is_inner_flag', 'lift_does_not_modify_shared_arguments']},
@@ -135,7 +141,9 @@ def run(pid, tier):
     out.assumptions = list(TRUSTED) + [
         'Verus: %d real functions emitted as external_body (contract assumed there, discharged by Kani at u8): %s' % (len(log.external), log.external),
         'Kani instantiations are at u8-based payloads; wider integers are covered by Verus (all 12 widths) and by the laws_<int> harnesses',
-        'Set / BoundedSet: BOUNDED stand-in only (native exhaustive over a small universe); Verus lacks BTreeSet::into_iter/is_subset specs and CBMC does not terminate',
+        'Set / BoundedSet: proved by Verus in a separate unit with a VIEW-based contract (abstract equality = equal element sets) against ASSUMED contracts of '
+        'BTreeSet::{into_iter, is_subset, is_superset, ==} (listed in set_unit_assumption_scan); ghost statements (R7) and widened field visibility (R8) are inserted; '
+        'the native exhaustive runs over a small universe remain as bounded cross-check and failing-input source (CBMC does not terminate on BTreeSet code)',
         'Rc/Arc/Box/Reverse, ConstPropagation::{join_mut,meet_mut}, Product<[T;N]>: decided by Kani for the listed instantiations only (N <= 4)',
         'termination of the lattice operations is checked by Verus only for the functions it verifies',
     ]
